@@ -170,17 +170,19 @@ func safeValues(sub *discov.Subscriber) (vals []string, p any) {
 
 func newLis() *lisRec { return &lisRec{sig: make(chan struct{}, 1)} }
 
-func (l *lisRec) record(vals []string) {
+func (l *lisRec) record(vals []string) int {
 	v := append([]string(nil), vals...)
 	sort.Strings(v)
 	l.mu.Lock()
 	l.calls++
+	n := l.calls
 	l.last = v
 	l.mu.Unlock()
 	select {
 	case l.sig <- struct{}{}:
 	default:
 	}
+	return n
 }
 
 func (l *lisRec) snapshot() (int, []string) {
@@ -278,6 +280,10 @@ func (l *lisRec) stable() {
 type resRec struct {
 	gresolver.ClientConn
 	lisRec
+	// hook runs inside UpdateState, after the list has been recorded as published, on the
+	// stack of whoever publishes (Build, or go-zero's watch goroutine); no lock is held,
+	// go-zero may publish again from another goroutine meanwhile. Set before Build only.
+	hook func(call int)
 }
 
 func (r *resRec) UpdateState(s gresolver.State) error {
@@ -285,7 +291,9 @@ func (r *resRec) UpdateState(s gresolver.State) error {
 	for _, a := range s.Addresses {
 		addrs = append(addrs, a.Addr)
 	}
-	r.record(addrs)
+	if n := r.record(addrs); r.hook != nil {
+		r.hook(n)
+	}
 	return nil
 }
 func (r *resRec) ReportError(error)                {}
@@ -1395,6 +1403,232 @@ func largeResolverHistory(c *kit.Case) {
 	}
 }
 
+// ---- registry events that arrive while the resolver is being built / is publishing
+//
+// The recording ClientConn is the one place where the harness runs on the stack of
+// Build (first UpdateState) or of go-zero's watch goroutine (later ones), so registry
+// events can be put exactly there:
+//
+//	event-during-build          ops applied from inside the FIRST UpdateState, i.e. between the
+//	                            initial publication and whatever Build does next; a progress
+//	                            notification queued behind them is awaited INSIDE UpdateState,
+//	                            so Build cannot proceed before go-zero has handled the events
+//	event-during-later-publish  ops queued from inside the UpdateState caused by a preceding
+//	                            registration (a publication is in flight); barrier afterwards
+//
+// No registry event follows. go-zero has then provably handled every event and called
+// every listener (sequential stream handling), so the LAST list passed to UpdateState
+// must be the registered values; a list that still differs was never corrected
+// ("never published" decided from the order of responses, not from a timer; a
+// mismatch is re-evaluated on a state that stopped changing).
+func buildInjectHistory(c *kit.Case) {
+	r := c.R
+	rt, ep := clusterFor(c, "binj")
+	h := newHist(c, rt, ep, "svc")
+	f := h.f
+	n := r.Range(1, 6)
+	if r.Chance(0.2) {
+		n = r.Range(12, 26) // plus at most 4 new values: the view stays <= 32
+	}
+	val := func(i int) string { return fmt.Sprintf("10.5.0.%d:8080", i) }
+	for i := 0; i < n; i++ {
+		if r.Chance(0.6) {
+			o := op{k: fmt.Sprintf("svc/%d", i), v: val(i)}
+			if i > 0 && r.Chance(0.15) {
+				o.v = val(i - 1)
+			}
+			h.log = append(h.log, "(before Build) "+h.descr(o))
+			f.apply(o)
+		}
+	}
+	fresh := n
+	reg := f.current(h.pwk)
+	genOps := func(m int) []op {
+		var ops []op
+		for len(ops) < m {
+			var keys []string
+			for k := range reg {
+				keys = append(keys, k)
+			}
+			sort.Strings(keys)
+			fresh++
+			switch {
+			case len(keys) > 0 && r.Chance(0.35):
+				k := kit.Choose(r, keys)
+				delete(reg, k)
+				ops = append(ops, op{del: true, k: k})
+			case len(keys) > 0 && r.Chance(0.2): // a further key for a registered value
+				o := op{k: fmt.Sprintf("svc/%d", fresh), v: reg[kit.Choose(r, keys)]}
+				reg[o.k] = o.v
+				ops = append(ops, o)
+			default:
+				o := op{k: fmt.Sprintf("svc/%d", fresh), v: val(fresh)}
+				reg[o.k] = o.v
+				ops = append(ops, o)
+			}
+		}
+		return ops
+	}
+	descr := func(ops []op) string {
+		var ds []string
+		for _, o := range ops {
+			if o.del {
+				ds = append(ds, "DEL "+o.k)
+			} else {
+				ds = append(ds, "PUT "+o.k+"="+o.v)
+			}
+		}
+		return strings.Join(ds, ", ")
+	}
+	pl := r.Pick(3, 2)
+	place := []string{"event-during-build", "event-during-later-publish"}[pl]
+	var first []op
+	if pl == 1 {
+		// a new key with a new value: the view changes, so a publication is due
+		fresh++
+		first = []op{{k: fmt.Sprintf("svc/%d", fresh), v: val(fresh)}}
+		reg[first[0].k] = first[0].v
+	}
+	ops := genOps(r.Pick(0, 5, 3, 1))
+	res := &resRec{lisRec: *newLis()}
+	var mu sync.Mutex
+	barrier := ""
+	fail := func(why string) {
+		mu.Lock()
+		if barrier == "" {
+			barrier = why
+		}
+		mu.Unlock()
+	}
+	await := func(done chan struct{}) bool {
+		if done == nil {
+			return false
+		}
+		t := time.NewTimer(patience())
+		defer t.Stop()
+		select {
+		case <-done:
+			return true
+		case <-t.C:
+			fired()
+			return false
+		}
+	}
+	hookRan := make(chan struct{})
+	if pl == 0 {
+		h.note(place, "BUILD discov resolver; from inside its 1st UpdateState: %s delivered on the watch stream, then a progress notification received by go-zero; UpdateState returns", descr(ops))
+		res.hook = func(call int) {
+			if call != 1 {
+				return
+			}
+			defer close(hookRan)
+			if !f.waitTotals(1, 1) {
+				fail("watchdog: no Get+Watch while Build was inside the 1st UpdateState")
+				return
+			}
+			_, _, fk := f.totals()
+			f.apply(ops...)
+			if !await(f.probe(fk)) {
+				fail("watchdog: go-zero did not receive the progress notification behind the injected events")
+			}
+		}
+	} else {
+		h.note(place, "BUILD discov resolver")
+		res.hook = func(call int) {
+			if call != 2 {
+				return
+			}
+			f.apply(ops...) // on go-zero's watch goroutine: only queue, the barrier is awaited outside
+			close(hookRan)
+		}
+	}
+	b := gresolver.Get("discov")
+	if b == nil {
+		panic("c13 harness: discov resolver scheme not registered")
+	}
+	u, err := url.Parse("discov://" + ep + "/svc")
+	if err != nil {
+		panic(err)
+	}
+	s := &subRec{name: "R", mode: "resolver", wk: h.pwk, res: res, m: newMirror(false, h.pwk, 0)}
+	var rs gresolver.Resolver
+	if p := guard(func() { rs, err = b.Build(gresolver.Target{URL: *u}, res, gresolver.BuildOptions{}) }); p != nil {
+		h.panicViol(s, "resolver Build", p)
+		return
+	}
+	if err != nil {
+		panic("c13 harness: discov Build: " + err.Error())
+	}
+	defer guard(func() { rs.Close() })
+	if pl == 0 {
+		select {
+		case <-hookRan:
+		default:
+			c.Inconclusive("Build returned without an initial UpdateState: no point to inject at")
+			return
+		}
+	} else {
+		if !f.waitTotals(1, 1) {
+			c.Inconclusive("watchdog: no Get+Watch after resolver Build")
+			return
+		}
+		_, _, fk := f.totals()
+		h.note(place, "%s; from inside the UpdateState it causes (2nd): %s queued on the watch stream; then a progress notification received by go-zero", descr(first), descr(ops))
+		f.apply(first...)
+		if !await(f.probe(fk)) {
+			fail("watchdog: go-zero did not receive the progress notification behind the first registration")
+		} else {
+			select {
+			case <-hookRan:
+				if !await(f.probe(fk)) {
+					fail("watchdog: go-zero did not receive the progress notification behind the injected events")
+				}
+			default:
+				h.log = append(h.log, "(no 2nd UpdateState happened: nothing was injected)")
+			}
+		}
+	}
+	mu.Lock()
+	why := barrier
+	mu.Unlock()
+	if why != "" {
+		c.Inconclusive(why + " (" + place + ")")
+		return
+	}
+	store := f.current(h.pwk)
+	plain := &mirror{wk: h.pwk}
+	_, last := res.snapshot()
+	mms := plain.compare(store, last)
+	c.Obs("resolver_build_inject_cases", 1)
+	c.Obs("resolver_build_inject_"+place, 1)
+	if len(mms) > 0 {
+		c.Obs("stale_publications", 1)
+		if !takeBudget("stale-publication") {
+			c.Obs("reports_suppressed_stale_publication", 1)
+			return
+		}
+		res.stable()
+		_, last = res.snapshot()
+		mms = plain.compare(store, last)
+	}
+	if len(mms) > 0 {
+		calls, _ := res.snapshot()
+		c.Viol("C13/resolver-stale-publication/"+place,
+			fmt.Sprintf("the last address list published through UpdateState (%d calls) is %v while %v is registered (%s %q); go-zero has received every event and none follows",
+				calls, last, store, mms[0].kind, mms[0].val),
+			map[string]any{"endpoint": ep, "watched_key": "svc", "placement": place, "steps": h.log, "published_last": last, "registered_now": store, "update_state_calls": calls})
+		return
+	}
+	parts := []any{"build-inject", place}
+	for _, l := range h.log {
+		parts = append(parts, l)
+	}
+	c.Sig(len(ops)+len(first) > 0, parts...)
+	if c.Index < 4 {
+		c.Sample("resolver-build-inject", 2, map[string]any{"placement": place, "steps": h.log, "published_last": last})
+	}
+}
+
 // ---- genuine reconnect: a real *grpc.ClientConn to a loopback gRPC listener that is
 // stopped and restarted drives go-zero's state watcher -> cluster.reload.
 
@@ -1598,6 +1832,7 @@ func TestVerifC13(t *testing.T) {
 	// of the statement on histories that cannot reach the known update-in-place defect
 	kit.Run(t, "C13", "random-noupdate", kit.N(5000, 120000), func(c *kit.Case) { randomHistory(c, true) })
 	kit.Run(t, "C13", "resolver-large", kit.N(400, 8000), largeResolverHistory)
+	kit.Run(t, "C13", "resolver-build-inject", kit.N(800, 20000), buildInjectHistory)
 	kit.Run(t, "C13", "reconnect", kit.N(24, 480), reconnectHistory)
 	kit.End()
 }
